@@ -23,7 +23,7 @@ class Contract:
                  modifies=(), loops=None, callees=None, returns=None,
                  consts=None, facts=(), decreases=None, ghosts=None,
                  inline=(), notes='', replay=None, prop=None, trusted=False,
-                 self_cls=None, cover=True, max_paths=400, opaque=(), kinds=None, label=None, abstract_regex=None, sig=None, caller_requires=(), returns_ghost=None, ghost_code=None, ghost_init=None, never_returns=False):
+                 self_cls=None, cover=True, max_paths=400, opaque=(), kinds=None, label=None, abstract_regex=None, sig=None, caller_requires=(), returns_ghost=None, ghost_code=None, ghost_init=None, never_returns=False, prefer=None):
         self.key = key
         self.params = dict(params or {})
         self.requires = list(requires)
@@ -51,6 +51,7 @@ class Contract:
         self.label = label
         self.caller_requires = list(caller_requires)   # evaluated in the CALLER's scope at each call site
         self.ghost_code = dict(ghost_code or {})   # statement text -> ghost assignments run right after it
+        self.prefer = prefer                   # 'cvc5': ask cvc5 before z3 (solver order only)
         self.never_returns = never_returns     # callee contract with exceptional outcomes only (cuts the analysis there)
         self.ghost_init = dict(ghost_init or {})   # ghost variable -> initial value expression
         self.returns_ghost = returns_ghost     # name of a ghost of the top contract that this callee returns
